@@ -784,6 +784,12 @@ func (h *hist) do(act string) bool {
 			return "ok"
 		})
 		if res != "ok" {
+			for x := 1; x <= nAddr; x++ { // a negative balance written to a disarmed object never reaches the RLP encoder (F2)
+				if u.s.GetBalance(addr(x)).Sign() < 0 && h.disarmedFamily(u, []int{x}) {
+					h.violate(kindF2, sigF2, fmt.Sprintf("%s: the erased history panics encoding the negative balance of account %d; the history itself never writes that account", act, x))
+					return false
+				}
+			}
 			h.violate("erased-history-differs", "erased-history-panics", "replaying the surviving operations panicked: "+res)
 			return false
 		}
@@ -796,34 +802,38 @@ func (h *hist) do(act string) bool {
 				h.violate(k, s, fmt.Sprintf("%s: history and erased history differ at accounts %v", act, d))
 				return false
 			}
-			if len(d) > 0 && h.disarmedFamily(u, d) {
-				h.violate(kindF2, sigF2, fmt.Sprintf("%s: accounts %v are cached without onDirty callback and outside the dirty set after a reverted touch; history and erased history differ there", act, d))
-				return false
-			}
 			if k, s := h.classifyLeaf(ru); k == kindF3 {
 				h.violate(k, s, fmt.Sprintf("%s: the erased history re-inserted a deleted empty account (accounts %v)", act, d))
 				return false
 			}
-			// F1 / F4: every differing account is a pre-existing empty account deleted by Finalise(true) although only reverted
-			// operations wrote (F1) or touched-as-0x03 (F4) it
-			okAll := f[1] == "1" && len(d) > 0 && auxOf(rv) == auxOf(view)
-			anyF1 := false
+			// every differing account must be explained by one known pattern:
+			//  F2  a live cached object without callback and outside the dirty set after a reverted touch
+			//  F1  a pre-existing empty account deleted by Finalise(true) although only reverted operations wrote it
+			//  F4  the same for a reverted touch of 0x03
+			okAll := len(d) > 0 && auxOf(rv) == auxOf(view)
+			nF1, nF2, nF4 := 0, 0, 0
 			for _, x := range d {
 				present, deleted, suicided, _, _ := u.s.VerifObj(addr(x))
-				shape := acctField(view, x) == fmt.Sprintf("%d:-", x) && strings.HasPrefix(acctField(rv, x), fmt.Sprintf("%d:0,0,-,s,", x)) && present && deleted && !suicided
+				shape := f[1] == "1" && acctField(view, x) == fmt.Sprintf("%d:-", x) && strings.HasPrefix(acctField(rv, x), fmt.Sprintf("%d:0,0,-,s,", x)) && present && deleted && !suicided
 				switch {
+				case h.disarmedFamily(u, []int{x}):
+					nF2++
 				case shape && u.revWr[x]:
-					anyF1 = true
+					nF1++
 				case shape && x == 3 && u.revT3:
+					nF4++
 				default:
 					okAll = false
 				}
 			}
-			if okAll && !anyF1 {
-				h.violate(kindF4, sigF4, fmt.Sprintf("%s deleted the empty account 0x03 after a reverted touch (journal.go skips the undo for this address)", act))
-			} else if okAll {
+			switch {
+			case okAll && nF2 > 0:
+				h.violate(kindF2, sigF2, fmt.Sprintf("%s: accounts %v: cached without onDirty callback and outside the dirty set after a reverted touch (F2 %d, F1 %d, F4 %d); history and erased history differ there", act, d, nF2, nF1, nF4))
+			case okAll && nF1 > 0:
 				h.violate(kindF1, sigF1, fmt.Sprintf("%s deleted accounts %v, which only reverted operations wrote; the same history without the reverted segments keeps them", act, d))
-			} else {
+			case okAll:
+				h.violate(kindF4, sigF4, fmt.Sprintf("%s deleted the empty account 0x03 after a reverted touch (journal.go skips the undo for this address)", act))
+			default:
 				h.violate("erased-history-differs", "erased-history-differs", fmt.Sprintf("%s: view %s root %s; erased history: view %s root %s", act, view, out, rv, rr))
 			}
 			return false
